@@ -217,8 +217,14 @@ Propose(y) ==
            xi == Noise(cfg, scale, x, y)
            gy == CGrad(cfg, y)
            r  == IF Finite(tv) THEN RCodeAt(cfg, scale, x, y, c_lp, c_grad, c_lik) ELSE NaN
+           \* what the deviation ProposalUsesRawPriorDraw proposes for the same draw (emitted to explain a mismatch)
+           yraw == IF cfg.k = "PCN"
+                   THEN LET a == PcnA(scale) s == SV(scale, cfg.d) IN
+                        [i \in 1..cfg.d |-> RAdd(RMul(a, R(x[i])), RMul(s[i], xi[i]))]
+                   ELSE <<>>
        IN /\ pending' = [y |-> y, xi |-> xi, tv |-> tv, gy |-> gy, r |-> r]
-          /\ prog' = Log([a |-> "p", j |-> IF cfg.k = "CW" THEN comp ELSE 0, y |-> y, xi |-> xi, tv |-> tv, gy |-> gy, r |-> r])
+          /\ prog' = Log([a |-> "p", j |-> IF cfg.k = "CW" THEN comp ELSE 0, y |-> y, xi |-> xi, tv |-> tv, gy |-> gy, r |-> r,
+                          yraw |-> yraw])
     /\ phase' = "proposed" /\ last' = "propose"
     /\ UNCHANGED <<cfg, x, c_lp, c_grad, c_lik, scale, comp, nT, nTune, nLoad, lastAcc>>
 
@@ -261,7 +267,7 @@ SaveLoad ==
     /\ prog' = Log([a |-> "s", x |-> x', clp |-> c_lp', cgrad |-> c_grad', clik |-> c_lik', sv |-> SV(scale, cfg.d)])
     /\ UNCHANGED <<cfg, pending, phase, comp, nT, nTune, lastAcc>>
 
-Next == \/ \E y \in X(1) \cup X(2) : Propose(y)
+Next == \/ \E y \in X(cfg.d) : Propose(y)
         \/ \E cls \in {"Below", "Above", "Any"} : Decide(cls)
         \/ Tune \/ SaveLoad
 
